@@ -1,4 +1,5 @@
 import Verif.Props.C09Cherry
+import Verif.Lemmas.RatCarrier
 import Verif.Props.C09NJ
 import Verif.Props.C05Order
 set_option linter.unusedSectionVars false
@@ -14,34 +15,6 @@ condensed vector and its `squareform`.
 namespace Verif.TreeBuild
 open Verif.Align Verif.Cluster ScoreOps ScoreLaws Verif.NJ
 
-instance : ScoreOps ℚ where
-  add := (· + ·)
-  sub := (· - ·)
-  mul := (· * ·)
-  div := (· / ·)
-  sum := List.sum
-  half := (· / 2)
-  le a b := decide (a ≤ b)
-  lt a b := decide (a < b)
-  zero := 0
-  one := 1
-  big := 1000000
-  ofNat := fun n => (n : ℚ)
-
-instance : ScoreLaws ℚ where
-  le_iff a b := by simp [ScoreOps.le]
-  lt_iff a b := by simp [ScoreOps.lt]
-  add_mono_l a b c h := by simp only [ScoreOps.add]; linarith
-  add_mono_r a b c h := by simp only [ScoreOps.add]; linarith
-  sub_mono_l a b c h := by simp only [ScoreOps.sub]; linarith
-
-@[simp] theorem q_add (a b : ℚ) : ScoreOps.add a b = a + b := rfl
-@[simp] theorem q_sub (a b : ℚ) : ScoreOps.sub a b = a - b := rfl
-@[simp] theorem q_div (a b : ℚ) : ScoreOps.div a b = a / b := rfl
-@[simp] theorem q_sum (l : List ℚ) : ScoreOps.sum l = l.sum := rfl
-@[simp] theorem q_zero : (ScoreOps.zero : ℚ) = 0 := rfl
-@[simp] theorem q_one : (ScoreOps.one : ℚ) = 1 := rfl
-@[simp] theorem q_ofNat (n : Nat) : (ScoreOps.ofNat n : ℚ) = (n : ℚ) := rfl
 @[simp] theorem q_two : (two : ℚ) = 2 := by simp only [two, q_add, q_one]; norm_num
 
 /-! ### lists -/
